@@ -47,6 +47,10 @@ func c08check(st *vGenRun, pattern []int) vs.CheckFunc {
 				wantLines = append(wantLines, fmt.Sprintf(`{"i":%d}`, i))
 			case 3:
 				wantErrs = append(wantErrs, fmt.Sprintf("scan-%d", i))
+			case 7:
+				wantErrs = append(wantErrs, fmt.Sprintf("scan-%d: context deadline exceeded", i))
+			case 8:
+				wantErrs = append(wantErrs, fmt.Sprintf("scan-%d: context canceled", i))
 			}
 		}
 		lines, complete := vLines(st.logger.out.String())
@@ -116,6 +120,26 @@ func verifC08(c *drv.Ctx) {
 			}
 		})
 	}
+	// probes that fail with an error wrapping context.DeadlineExceeded / context.Canceled while the scan itself
+	// goes on (7, 8: a stalled service met by a client with its own time limit): failures like any other
+	vPatterns([]int{0, 7, 8, 3}, 3, func(p []int) {
+		if !strings.ContainsAny(vPatStr(p), "78") {
+			return
+		}
+		idx++
+		if !c.Mine(idx) || c.Expired() {
+			return
+		}
+		for _, w := range []int{1, 2} {
+			name := fmt.Sprintf("pattern=%s workers=%d ctx-errors bound=1", vPatStr(p), w)
+			st, cfg, main := vGenericScenario(p, w, 300*time.Millisecond, 0, false, false, 2)
+			r := vs.Explore(vs.Options{Bound: 1, Iterate: true, Deadline: c.Deadline}, cfg, main, c08check(st, p))
+			c.Explore(name, r, func(v vs.Violation) string {
+				return fmt.Sprintf("generic:pattern=%s,workers=%d:%s", vPatStr(p), w, strings.SplitN(v.Msg, ":", 2)[0])
+			})
+			c.Nontrivial(1)
+		}
+	})
 	// unscaled long run: more positives than the 1000-slot result buffer, more errors than the 100-slot error buffer
 	idx++
 	if c.Mine(idx) && !c.Expired() {
